@@ -13,6 +13,10 @@ pub struct NullTarget {
     pub n: u64,
     pub sum: u64,
 }
+thread_local! { static BUDGET: std::cell::Cell<u64> = std::cell::Cell::new(400_000_000); }
+fn budget() -> u64 {
+    BUDGET.with(|b| b.get())
+}
 impl Dimensions for NullTarget {
     fn bounding_box(&self) -> Rectangle {
         self.bb
@@ -25,7 +29,7 @@ impl DrawTarget for NullTarget {
         for Pixel(p, c) in pixels {
             self.n += 1;
             self.sum = self.sum.wrapping_add((p.x as u64) ^ ((p.y as u64) << 16) ^ c.into_storage() as u64);
-            if self.n > 400_000_000 {
+            if self.n > budget() {
                 panic!("step budget exceeded");
             }
         }
@@ -64,12 +68,18 @@ impl DrawTarget for NullIterTarget {
     }
 }
 
-const CAP: usize = 60_000_000;
 
 fn exercise(z: &Zoo) -> Result<u64, String> {
     let mut steps: u64 = 0;
     let bb = z.bounding_box();
     steps += bb.size.width as u64;
+    // explicit step bound: no iterator of a drawable may yield more than 16 x the area of its (styled) bounding
+    // box plus a constant (overdraw of thick joins, glyph backgrounds, decoration lines); the targets and the
+    // counting loops below stop there
+    let cap = 16 * (bb.size.width as u64 + 8) * (bb.size.height as u64 + 8) + 65_536;
+    BUDGET.with(|b| b.set(cap));
+    #[allow(non_snake_case)]
+    let CAP = cap as usize;
     if let Some(pb) = z.primitive_bounding_box() {
         // contains() on the corners and centre of the box and a margin
         for q in [pb.top_left, pb.top_left - Point::new(1, 1), pb.center(), pb.top_left + pb.size, Point::new(1024, -1024)] {
@@ -79,11 +89,11 @@ fn exercise(z: &Zoo) -> Result<u64, String> {
         }
     }
     // points() / pixels() counted without collecting (no allocation allowed in here)
-    let np = count_points(z);
+    let np = count_points(z, CAP);
     if np >= CAP as u64 {
         return Err("points() exceeded the step budget".into());
     }
-    let nx = count_pixels(z);
+    let nx = count_pixels(z, CAP);
     if nx >= CAP as u64 {
         return Err("pixels() exceeded the step budget".into());
     }
@@ -130,7 +140,7 @@ fn adapters(z: &Zoo, bb: &Rectangle) -> Result<u64, String> {
         t.clipped(area).fill_contiguous(bb, colors.take(100_000)).unwrap();
         t.clipped(area).fill_solid(other, Rgb565::new(3, 2, 1)).unwrap();
         t.cropped(area).clear(Rgb565::new(3, 2, 1)).unwrap();
-        if t.n > 400_000_000 {
+        if t.n > 12 * budget() + 1_000_000 {
             return Err("adapter drawing exceeded the step budget".into());
         }
         n += t.n;
@@ -163,7 +173,8 @@ fn rejections(z: &Zoo) -> u64 {
     n
 }
 
-fn count_points(z: &Zoo) -> u64 {
+#[allow(non_snake_case)]
+fn count_points(z: &Zoo, CAP: usize) -> u64 {
     use embedded_graphics::primitives::*;
     match &z.geo {
         Geo::Rect(p) => p.points().take(CAP).count() as u64,
@@ -178,7 +189,8 @@ fn count_points(z: &Zoo) -> u64 {
         _ => 0,
     }
 }
-fn count_pixels(z: &Zoo) -> u64 {
+#[allow(non_snake_case)]
+fn count_pixels(z: &Zoo, CAP: usize) -> u64 {
     use embedded_graphics::primitives::*;
     let st = z.style;
     match &z.geo {
